@@ -138,6 +138,20 @@ def gen_texts(rng, n, dfa, tr):
             parts.append(rng.choice(pool))
             parts.append(rng.choice(SEPS))
         texts.append("".join(parts))
+    # texts whose length is an exact multiple of the reader's buffer size (4096), one less and one more, ending in a
+    # one-character token with and without a final newline (layouts hit by the dependency's boundary defect D14 are left to C13)
+    from . import c13 as c13mod
+    from . import docref as docref_
+    ref_ = docref_.build_reference()
+    doc_ = Dfa(ref_["start"], docref_.compress_edges(ref_["trans"]))
+    for L in (4096, 8192):
+        for d_ in (-1, 0, 1):
+            for tail in ("", "\n"):
+                body = "rule = a b;" + tail
+                k = L + d_ - len(body)
+                t = ("// pad\n" * (k // 7)) + " " * (k % 7) + body
+                if not c13mod.lookahead_at_boundary(t, doc_, lambda q: ref_["labels"].get(q)):
+                    texts.append(t)
     # dedupe, drop NUL (reserved by the reader)
     seen, out = set(), []
     for t in texts:
